@@ -11,20 +11,21 @@ CONSTANTS
 
 VARIABLE case
 
-SinglesOf(t) == {[t |-> t, slots |-> <<j>>, kinds |-> <<k>>] : j \in Slots(t), k \in CommentKinds}
-
 KindPairs ==
   CASE PairKinds = "same" -> {<<k, k>> : k \in CommentKinds}
     [] PairKinds = "some" -> {<<"block", "block">>, <<"line", "line">>, <<"line", "block">>, <<"doc", "line">>, <<"block", "doc">>}
     [] OTHER -> CommentKinds \X CommentKinds
 
-PairsOf(t) ==
-  IF PairMode = "none" THEN {}
-  ELSE LET ij == {p \in Slots(t) \X Slots(t) :
-                    p[1] < p[2] /\ (PairMode = "all" \/ p[2] - p[1] <= NearDist)}
-       IN  {[t |-> t, slots |-> p, kinds |-> kk] : p \in ij, kk \in KindPairs}
-
-Cases == UNION {SinglesOf(t) \cup PairsOf(t) : t \in 1..NTemplates}
+(* every case is an initial state: all single slots with every comment kind, and the pairs of slots
+   selected by PairMode with the kinds selected by PairKinds *)
+IsCase(c) ==
+  \E t \in 1..NTemplates :
+    \/ \E j \in Slots(t), k \in CommentKinds : c = [t |-> t, slots |-> <<j>>, kinds |-> <<k>>]
+    \/ /\ PairMode # "none"
+       /\ \E i \in Slots(t), j \in Slots(t), kk \in KindPairs :
+            /\ i < j
+            /\ (PairMode = "all" \/ j - i <= NearDist)
+            /\ c = [t |-> t, slots |-> <<i, j>>, kinds |-> kk]
 
 (* the comments of a case as the model sees them *)
 ModelComments(c) ==
@@ -36,7 +37,7 @@ CaseOut(c) ==
   [t |-> TemplateId(c.t), slots |-> c.slots, kinds |-> c.kinds, exp |-> ModelOrder(c),
    cls |-> [i \in 1..Len(c.slots) |-> ModelComments(c)[i].cls]]
 
-Init == case \in Cases
+Init == IsCase(case)
 Next == UNCHANGED case
 
 Emit == PrintT(<<"BEHAVIOUR", ToJson(CaseOut(case))>>)
